@@ -4,6 +4,7 @@ scenario file alone determines the execution."""
 from __future__ import annotations
 
 import itertools
+import os
 import random
 from typing import Any, Dict, List, Optional
 
@@ -154,8 +155,12 @@ def gen_minutes(rng) -> int:
     return rng.randrange(0, 71582789)
 
 
-def gen_auto_seconds(rng) -> int:
+def gen_auto_seconds(rng):
     r = rng.random()
+    if r < 0.08:
+        # a timedelta need not be a whole number of seconds (nor non-negative, nor shorter than a day)
+        return rng.choice([3599.5, 3599.999999, 3600.5, 3659.5, 86339.5, 86340.5, -0.5, -3600.0, 0.5,
+                           86400 + 3600, 86400 + 8100, 86400 * 2, -86400 + 7200, -79200, 3600 + rng.random()])
     if r < 0.5:
         base = rng.choice([3600, 86340, 86400])
         return base + rng.randrange(-125, 126)
@@ -364,6 +369,12 @@ def base_config(rng, zone_sensitive: bool = False) -> Dict[str, Any]:
     tz = rng.choice(ZONES)
     cfg = {"sched": rng.randrange(1 << 30), "tz": tz,
            "epoch0": gen_epoch_zone(rng, tz) if zone_sensitive else gen_epoch_any(rng)}
+    if os.path.exists("/usr/share/zoneinfo/" + tz):
+        r = rng.random()
+        if r < 0.15:
+            cfg["tz_form"] = "colon"        # TZ=":Europe/Paris"
+        elif r < 0.25:
+            cfg["tz_form"] = "path"         # TZ=":/usr/share/zoneinfo/Europe/Paris"
     r = rng.random()
     if r < 0.2:
         cfg["log"] = "DEBUG"        # the user has turned the library's debug logging on
